@@ -143,12 +143,14 @@ CLAIMED = {
         note=TB + "Executor/handler parity is measured by the twin run, not proved (executor.rs re-implements the commands; 9 parity findings recorded); nil-bulk->nil, status->string and false->:0 are pinned by the repo's own tests and stay recorded findings; no script time limit (finding, never executed here); Lua's own semantics are trusted.",
         ref="DESIGN.md section 5 C12"),
     "C13": dict(
-        text=("Proof: the accounting identity pushed = delivered + lost + stored (multiset) and no duplication for EVERY event history and every variant; FIFO service per key for every history; and, by "
-              "induction with an invariant over all histories satisfying a decidable predicate, conservation (nothing lost), no stranded client, registry <-> blocked, no leftover registration, nil never before "
-              "the deadline and the timeout does fire - with witness lemmas, replayed on the real server, that each excluded class broke the full statement on the old code and no longer does with the five "
-              "repairs now in the tree (switches regenerated from server.rs/blocking.rs); 25+ Lean theorems; random multi-connection histories (multi-key, multi-element, duplicate keys, pipelines, MULTI/EXEC, "
-              "timeouts, hang-ups) are executed on the real server with loop-phase control and compared with the model reply by reply, with conservation/stranded oracles judged on the server's own lists and registry dump."),
-        note=TB + "PARTIAL: still excluded and recorded as open findings - a client that disconnects while blocked, a blocking pop pipelined behind one that blocked, lists created by scripts or RENAME (no notification). Promptness is 'by the end of the loop iteration'; wall-clock timeout accuracy is tolerance-checked, not proved.",
+        text=("Proof: the accounting identity pushed = delivered + lost + stored (multiset) and no duplication for EVERY event history and every variant; FIFO service per key for every history; and for the tree as it is "
+              "(`sourceQuirks_repaired`: the repair switches regenerated from server.rs/blocking.rs are on) conservation (nothing lost), no stranded client, registry <-> blocked, no leftover registration, nil never before "
+              "the deadline, the timeout does fire, the wake queue is empty at every boundary - by induction with a multi-key invariant over ALL histories in the decidable class AllowedFixed: any number of keys per blocking "
+              "pop (duplicates included), any number of elements per push, pops anywhere (pipelined, inside EXEC), blocking pops inside MULTI/EXEC, timeouts, disconnects of non-blocked clients; EXEC atomicity with respect "
+              "to blocked clients (`exec_atomic_holds`); each remaining exclusion is shown necessary by a witness, each former defect by a witness lemma replayed on the real server - 40 Lean theorems; random multi-connection "
+              "histories (2-key and duplicate-key waits, multi-element pushes, push+pop in one batch under a waiter, BLPOP inside EXEC, timeouts, hang-ups) run on the real server with loop-phase control and are compared with "
+              "the model reply by reply; conservation/stranded/registry oracles are judged on the server's own lists and registry dump; scripts and RENAME onto waited keys are probed on the server."),
+        note=TB + "PARTIAL: excluded from the theorems is a client whose socket closes while it is blocked and an element is pushed before the server has looked (the element is written to a dead socket: inherent, same in Redis); scripts/RENAME are outside the model's alphabet (server probes only). Promptness is 'by the end of the command'; wall-clock timeout accuracy is tolerance-checked, not proved.",
         ref="DESIGN.md section 5 C13"),
     "C04": dict(
         text=("Proof: the skip-list invariant (level 0 strictly sorted by (score, member), every level a sublist of the one below, key index = level 0, length) for every "
